@@ -123,6 +123,22 @@ def toolDirStep (H : Bytes → K) (s : Sess K) (contents : List Entry) (newdirca
       else if healthy then (sstep H s1 (.dirHealthyVia k now), false, d)
       else (sstep H s1 (.createVia k newdircap now), true, newdircap)
 
+/-- one step of a `tahoe backup` run: a file (`FileTarget.backup` → `BackerUpper.upload`) or a directory
+    (`DirectoryTarget.backup` → `BackerUpper.upload_directory`); a run is a list of such steps with the run's flags
+    (`--ignore-timestamps`, the answers of the grid) and a history of runs is the concatenation -/
+inductive RunStep
+  | file (path : Bytes) (st : Stat) (ignoreTs : Bool) (newcap : Bytes) (healthy : Bool) (now : Int) (rnd : Nat)
+  | dir (contents : List Entry) (newdircap : Bytes) (healthy : Bool) (now : Int) (rnd : Nat)
+
+/-- the step's effect on the session and its outcome: (uploaded / created?, the cap the run uses) -/
+def tstep (H : Bytes → K) (s : Sess K) : RunStep → Sess K × Bool × Bytes
+  | .file p st ign cap healthy now rnd => toolFileStep H s p st ign cap healthy now rnd
+  | .dir c d healthy now rnd => toolDirStep H s c d healthy now rnd
+
+/-- the session after a history of backup runs (any number of runs, any flags, any file changes in between — the
+    stat and content-derived cap of every step are arguments), starting from a fresh database -/
+def trun (H : Bytes → K) (rs : List RunStep) : Sess K := rs.foldl (fun s r => (tstep H s r).1) {}
+
 /-- the (path, stat) pairs seen by the `check` steps of a session, in order: what each result object sampled -/
 def checksOf : List SOp → List (Bytes × Stat)
   | [] => []
